@@ -431,9 +431,9 @@ theorem readLigs_spec (c : Bytes) (setPos : Nat) : ∀ (ls : List Lig) (Q T : Li
       rw [bytesToWords_append _ hlt]
       simp only [List.flatMap_cons, ligWords, List.cons_append, List.append_assoc]
       rw [w16_of_lt (by omega)]
-      have e : (l.inp.length + 1 + 65535) % 65536 = l.inp.length := by omega
-      simp only [e]
-      rw [if_neg (by simp), List.take_left]
+      rw [if_neg (by simp)]
+      have e : l.inp.length + 1 - 1 = l.inp.length := by omega
+      rw [e, if_neg (by simp), List.take_left]
     rw [hrl]
     have ih := readLigs_spec c setPos ls (Q ++ ligWords l) T (pos0 + 4 + 2 * l.inp.length)
       (by intro w hw
